@@ -1,6 +1,7 @@
 CONSTANTS
   Deep = TRUE
   FixFmt0 = FALSE
+  FixSymInv = FALSE
 SPECIFICATION Spec
 INVARIANTS DesignOK EmitCase
 CHECK_DEADLOCK FALSE
